@@ -92,6 +92,42 @@ def gen_cases(rng, ctx):
     deny10 = [[1, 2, 0], [4, 8, 10, 0, 0, 0], [], []]
     mk([deny10], [0] * 10 + [255, 255, 10, 1, 2, 3], None, "corpus:mapped-peer")
     mk([[[0, 2, 0], [4, 24, 192, 168, 1, 0], [], []], [[1, 0, 0], [], [], []]], [0] * 10 + [255, 255, 192, 168, 1, 9], None, "corpus:mapped-peer")
+    # the rules at the real listener (Core::listen on a loopback port): the peer is 127.0.0.1, the client random is whatever the
+    # TLS client sent (read off the wire by the harness; the verdict is computed from it afterwards); QUIC: address rules only
+    LOOP_NETS = [[4, 8, 127, 0, 0, 0], [4, 32, 127, 0, 0, 1], [4, 32, 127, 0, 0, 2], [4, 8, 10, 0, 0, 0], [4, 0, 0, 0, 0, 0],
+                 [6, 128] + [0] * 15 + [1], [6, 104] + [0] * 10 + [255, 255, 127, 0, 0, 0], [6, 0] + [0] * 16]
+    for i in range(120 if thorough else 36):
+        quic = i % 4 == 3
+        rules = []
+        for _ in range(rng.choice([0, 1, 1, 2, 3])):
+            act = rng.below(2)
+            ck = rng.choice([0, 2, 2])
+            c = rng.choice(LOOP_NETS) if ck == 2 else []
+            pk = 0 if quic else rng.choice([0, 3, 3, 2])
+            pm_, mm_ = [], []
+            if pk == 3:
+                k = rng.choice([1, 2])
+                pm_ = rng.bytes(k)
+                mm_ = [rng.choice([0x80, 0x01, 0xC0, 0x00]) for _ in range(k)]     # one or two bits: both verdicts happen
+            elif pk == 2:
+                pm_ = rng.choice([[], rng.bytes(1)])
+            rules.append([[act, ck, pk], c, pm_, mm_])
+        toks = [[len(rules), i % 2, 3 if quic else 1]]
+        for r in rules:
+            toks += r
+        li = line("c04_front", toks)
+        rule_toks = [[len(rules), i % 2]] + sum(rules, [])
+
+        def spec(impl, rule_toks=rule_toks, quic=quic):
+            # the model's verdict for the first connection's client random
+            t = impl.split()
+            rnd = untok(t[1]) if len(t) >= 2 and t[0] != "996" else []
+            if quic:
+                rnd = [0] * 32
+            return line("c04_eval", rule_toks + [[1], [127, 0, 0, 1], rnd])
+
+        cases.append(Case(li, None, spec, kind="listener:" + ("quic" if quic else "tls"), nontrivial=bool(rules),
+                          meta={"rules": rules, "peer": [127, 0, 0, 1], "front": True, "quic": quic}))
     n = 4000 if thorough else 700
     for i in range(n):
         rules = [gen_rule(rng) for _ in range(rng.choice([0, 1, 1, 2, 3, 4, 6]))]
@@ -169,6 +205,42 @@ def doc_oracle(meta):
 def judge(case, impl, model, spec, ctx):
     if impl == "999":
         return [("violation", "rule evaluation panicked")]
+    if case.meta.get("front"):
+        if impl == "996":
+            ctx.setdefault("skipped_env", []).append(case.kind)
+            return []
+        t = impl.split()
+        quic = case.meta["quic"]
+        tries = [(untok(t[k])[0], untok(t[k + 1]) if k + 1 < len(t) else []) for k in range(0, len(t), 2)]
+        out = []
+        refused_wrongly = 0
+        first_want = None
+        for admitted, rnd in tries:
+            meta = dict(case.meta)
+            # (a QUIC connection always has a client random; the address-only rules used there do not look at it)
+            meta["cr"] = [0] * 32 if quic else rnd
+            if not quic and len(rnd) != 32:
+                continue
+            want = doc_oracle(meta)
+            if first_want is None:
+                first_want = (want, rnd)
+            if want is None:
+                continue
+            what = "real %s listener, peer 127.0.0.1, client random %s, rules %s" % ("QUIC" if quic else "TLS", bytes(rnd).hex() or "-", case.meta["rules"])
+            if admitted and want[1] == 1:
+                out.append(("violation", "%s: the connection was admitted, the documented first-match verdict is deny" % what))
+                break
+            if not admitted and want[1] == 0:
+                refused_wrongly += 1
+                if refused_wrongly >= 2:
+                    out.append(("violation", "%s: the connection was refused (twice in three connections), the documented first-match verdict is allow" % what))
+                    break
+        if not out and spec is not None and first_want is not None and first_want[0] is not None:
+            sv = untok(spec.split()[0])
+            if sv[1] != first_want[0][1]:
+                out.append(("disagree", "rules %s, peer 127.0.0.1, client random %s: the model's verdict %d differs from the documented one %d"
+                            % (case.meta["rules"], bytes(first_want[1]).hex(), sv[1], first_want[0][1])))
+        return out
     iv = untok(impl)
     want = doc_oracle(case.meta)
     out = []
